@@ -500,6 +500,7 @@ func (sp *subProcess) ceaseFlowMonitor(tracer tracing.ITracer) func(ctx context.
 	// Subscribing to traces early as otherwise events produced
 	// after the goroutine below is started are not going to be
 	// sent to it.
+	verifhook.Point("subprocess.monitor.before_subscribe")
 	traces := tracer.Subscribe()
 	sp.complete.Lock()
 	return func(ctx context.Context, sender tracing.ISenderHandle) {
